@@ -22,6 +22,9 @@ type c08World struct {
 	fin    chan struct{}
 	accepts int
 	early   bool
+	nPlugins  int  // connections the listener hands out (default 1)
+	failFirst bool // the first connecting plugin fails its synchronization
+	next      int
 }
 
 var c08 *c08World
@@ -30,7 +33,11 @@ type c08Listener struct{}
 
 func (c08Listener) Accept() (stdnet.Conn, error) {
 	c08.accepts++
-	if c08.accepts > 1 {
+	n := c08.nPlugins
+	if n == 0 {
+		n = 1
+	}
+	if c08.accepts > n {
 		close(c08.done)
 		return nil, errListenerClosed
 	}
@@ -43,7 +50,17 @@ var errListenerClosed = context.Canceled
 
 // verifC08NewExternal / verifC08Start replace newExternalPlugin / plugin.start: the handshake is C17's subject.
 func verifC08NewExternal(r *Adaptation, conn stdnet.Conn) (*plugin, error) {
-	ep := &envPlugin{w: c08.w, id: 0}
+	i := c08.next
+	c08.next++
+	ep := &envPlugin{w: c08.w, id: i}
+	if c08.failFirst && i == 0 {
+		ep.syncFn = func(req *SynchronizeRequest) (*SynchronizeResponse, error) {
+			return nil, errListenerClosed // any error: this plugin fails to synchronize
+		}
+		rpcc, rpcs := envRPC()
+		return &plugin{idx: "00", base: "bad", events: ValidEvents, r: r, impl: &pluginType{ttrpcImpl: ep}, mux: &envMux{}, rpcl: &envListener{},
+			rpcc: rpcc, rpcs: rpcs, closeC: make(chan struct{}), regC: make(chan error, 1)}, nil
+	}
 	ep.syncFn = func(req *SynchronizeRequest) (*SynchronizeResponse, error) {
 		vassert(!readLockHeld(&r.syncLock), "ghost-plugin-synchronized-while-a-sync-block-is-held")
 		for _, c := range req.Containers {
@@ -53,7 +70,7 @@ func verifC08NewExternal(r *Adaptation, conn stdnet.Conn) (*plugin, error) {
 		return &SynchronizeResponse{}, nil
 	}
 	rpcc, rpcs := envRPC()
-	p := &plugin{idx: "00", base: "plugin", events: ValidEvents, r: r, impl: &pluginType{ttrpcImpl: ep}, mux: &envMux{}, rpcl: &envListener{},
+	p := &plugin{idx: "0" + itoaDigit(i), base: "plugin", events: ValidEvents, r: r, impl: &pluginType{ttrpcImpl: ep}, mux: &envMux{}, rpcl: &envListener{},
 		rpcc: rpcc, rpcs: rpcs, closeC: make(chan struct{}), regC: make(chan error, 1)}
 	c08.p, c08.ep = p, ep
 	return p, nil
@@ -132,6 +149,62 @@ func H_C08_register_vs_create() {
 		}
 		for _, c := range w.trace {
 			if c.method == "CreateContainer" {
+				if req, ok := c.arg.(*CreateContainerRequest); ok && req.Container.Id == id {
+					created++
+				}
+			}
+		}
+		if inSnap == 1 {
+			cover("in-snapshot")
+		}
+		if created == 1 {
+			cover("created-later")
+		}
+		vassert(inSnap+created == 1, "container-seen-not-exactly-once")
+	}
+}
+
+// H_C08_failed_sync_then_register: a plugin whose synchronization fails connects first, a well-behaved one
+// second, while a runtime goroutine creates a container inside a sync block. The failed plugin holds nothing
+// back: the block is obtained and released, the second plugin is synchronized and activated, and it learns of
+// the container exactly once (snapshot or creation request); the failed plugin is not active.
+//verif:property C08
+//verif:preempt 1
+//verif:maxgoroutines 8
+//verif:cut (*github.com/containerd/nri/pkg/adaptation.Adaptation).newExternalPlugin => verifC08NewExternal
+//verif:cut (*github.com/containerd/nri/pkg/adaptation.plugin).start => verifC08Start
+//verif:expect-cover in-snapshot created-later
+func H_C08_failed_sync_then_register() {
+	w := &envWorld{}
+	r := &Adaptation{}
+	w.r = r
+	c08 = &c08World{r: r, w: w, done: make(chan struct{}), fin: make(chan struct{}, 2), store: []string{"c-old"}, nPlugins: 2, failFirst: true}
+	r.syncFn = func(ctx context.Context, cb SyncCB) error {
+		var ctrs []*Container
+		for _, id := range c08.store {
+			ctrs = append(ctrs, &Container{Id: id})
+		}
+		_, err := cb(ctx, nil, ctrs)
+		return err
+	}
+	r.acceptPluginConnections(c08Listener{})
+	go c08Create("c-a")
+	<-c08.done
+	<-c08.fin
+	vassert(c08.synced, "plugin-never-synchronized")
+	r.Lock()
+	active := len(r.plugins) == 1 && r.plugins[0] == c08.p
+	r.Unlock()
+	vassert(active, "good-plugin-not-the-only-active-one")
+	for _, id := range []string{"c-old", "c-a"} {
+		inSnap, created := 0, 0
+		for _, s := range c08.snap {
+			if s == id {
+				inSnap++
+			}
+		}
+		for _, c := range w.trace {
+			if c.method == "CreateContainer" && c.plugin == 1 {
 				if req, ok := c.arg.(*CreateContainerRequest); ok && req.Container.Id == id {
 					created++
 				}
